@@ -6,15 +6,17 @@ offered, foreign) x parent statuses x content evaluation results.  The oracle is
 qualifiers whose own expression evaluates to fulfilled (a single-entry pool offers its entry), in pool order.
 """
 
+from contextvars import ContextVar
+
 from hypothesis import strategies as st
 
-from vlib import ref, sut, vtree
+from vlib import gen, ref, sut, vtree
 from vlib.core import Stage, fail
 
 ID = "C17"
 MANIFEST = {
     "category": "exploration",
-    "text": "Generated-input search against an oracle written from the statement: value pools of 1-5 entries (valid AHB expressions of all documented forms, incl. packages) x entered input in {absent, empty, an offered qualifier, a pool qualifier that is not offered, a foreign value} x parent status in {required, optional, forbidden} x content evaluation results incl. UNKNOWN, through validate_data_element_valuepool directly and through validate_segment. possible_values must list exactly the qualifiers whose own expression is fulfilled, in pool order, with their meanings; nothing offered or forbidden segment => IS_FORBIDDEN with nothing offered; entered value offered => ..._AND_FILLED and not flagged; entered non-empty value not offered => flagged (format_validation_fulfilled False) and ..._AND_EMPTY; no input => ..._AND_EMPTY, not flagged.",
+    "text": "Generated-input search against an oracle written from the statement: value pools of 1-5 entries (valid AHB expressions of all documented forms, incl. packages) x entered input in {absent, empty, an offered qualifier, a pool qualifier that is not offered, a foreign value} x parent status in {required, optional, forbidden} x content evaluation results incl. UNKNOWN, through validate_data_element_valuepool directly and through validate_segment; a quarter of the cases inject the shipped ContentEvaluationResult based evaluators once and validate the same pool twice under two different content evaluation results that define its packages differently. possible_values must list exactly the qualifiers whose own expression is fulfilled, in pool order, with their meanings; nothing offered or forbidden segment => IS_FORBIDDEN with nothing offered; entered value offered => ..._AND_FILLED and not flagged; entered non-empty value not offered => flagged (format_validation_fulfilled False) and ..._AND_EMPTY; no input => ..._AND_EMPTY, not flagged.",
     "note": "Trusted: the reference evaluation of entry expressions (vlib/ref.py) and the oracle in this module. Whether a non-forbidden pool is reported REQUIRED or OPTIONAL is not constrained by the statement and not checked.",
     "technique": "property-based testing against a reference predicate (offered set computed by the reference evaluator)",
 }
@@ -72,7 +74,38 @@ def judge(result, element, offered, parent_forbidden, what):
             fail("no-input", f"{what}: no input but the element was flagged")
 
 
+_CER = ContextVar("c17_cer", default=None)
+
+
+def check_long_lived(case):
+    """
+    The shipped ContentEvaluationResult based evaluators are injected once (their intended use: a long-lived set of
+    evaluators, the evaluatable data decide) and the same pool is validated twice, under two different content
+    evaluation results that also define the packages differently.  Each validation must judge by its own data.
+    """
+    direct, _, values = _api()
+    element, parent = case["element"], case["parent"]
+    sut.setup_cer_based(_CER)
+    info = {"offered": 0, "pool": len(element["pool"])}
+    for round_number, name in enumerate(("first", "second")):
+        cer, table = case[name]["cer"], case[name]["table"]
+        _CER.set(sut.make_cer(rc=cer["rc"], fc=cer["fc"], hints=cer["hints"], packages=table))
+        pool = [{"q": e["q"], "expr": e["expr"][name]} for e in element["pool"]]
+        current = {"t": "vp", "d": element["d"], "pool": pool, "inp": element["inp"]}
+        offered = vtree.offered(pool, cer["rc"])
+        res = sut.call(direct, vtree.build_element(current), getattr(values, parent))
+        what = (f"validation {round_number + 1} of 2 with one long-lived evaluator set: pool "
+                f"{[(e['q'], e['expr']['s']) for e in pool]}, packages {table}, input {element['inp']!r}, segment {parent}, rc {cer['rc']}")  # fmt: skip
+        if not res.ok:
+            fail("raises", f"{what} raised {res!r}")
+        judge(res.value.validation_result, current, offered, parent == "IS_FORBIDDEN", what)
+        info["offered"] = len(offered)
+    return info
+
+
 def check(case):
+    if "first" in case:
+        return check_long_lived(case)
     direct, validate_segment, values = _api()
     element, cer, parent = case["element"], case["cer"], case["parent"]
     tree = {"groups": [], "table": case["table"]}
@@ -108,6 +141,14 @@ def check(case):
 
 
 def classify(case, info):
+    if "first" in case:
+        pool = [{"q": e["q"], "expr": e["expr"]["second"]} for e in case["element"]["pool"]]
+        offered = vtree.offered(pool, case["second"]["cer"]["rc"])
+        changed = vtree.offered([{"q": e["q"], "expr": e["expr"]["first"]} for e in case["element"]["pool"]], case["first"]["cer"]["rc"]) != offered
+        labels = ["long-lived-evaluators", "parent=" + case["parent"]]
+        if changed:
+            labels.append("offer-changes-between-validations")
+        return labels, changed
     element = case["element"]
     labels = ["parent=" + case["parent"], f"pool={info['pool']}"]
     offered = vtree.offered(element["pool"], case["cer"]["rc"])
@@ -131,7 +172,36 @@ def classify(case, info):
 
 def strategy(tier):  # pylint:disable=unused-argument
     @st.composite
+    def build_long_lived(draw):
+        # the same written expressions, but the packages they use are defined differently in the two rounds
+        tables = [draw(vtree.package_table()) for _ in range(2)]
+        qualifiers = draw(st.lists(st.sampled_from(vtree.QUALIFIERS), min_size=2, max_size=5, unique=True))
+        pool = []
+        for qualifier in qualifiers:
+            body = draw(st.sampled_from(["pkg", "pkg", "rc-and-pkg", "plain"]))
+            key = draw(st.sampled_from(vtree.PACKAGES))
+            rc = draw(st.sampled_from(vtree.RC))
+            indicator = draw(gen.indicator_text(["X", "Muss", "M", "Kann"]))
+            variants = {}
+            for name, (_, asts) in zip(("first", "second"), tables):
+                if body == "pkg":
+                    text, ast = f"{indicator} [{key}] ", asts[key]
+                elif body == "rc-and-pkg":
+                    text, ast = f"{indicator} [{rc}] U [{key}] ", ["and", [["rc", rc], asts[key]]]
+                else:
+                    text, ast = f"{indicator} [{rc}] ", ["rc", rc]
+                variants[name] = {"s": text, "parts": [[indicator, ast]]}
+            pool.append({"q": qualifier, "expr": variants})
+        entered = draw(st.sampled_from([None, "", "Q"] + qualifiers + qualifiers))
+        rounds = {}
+        for name, (table, _) in zip(("first", "second"), tables):
+            rounds[name] = {"cer": draw(vtree.g_cer(weights=draw(st.sampled_from(["FU", "FFU", "FUK"])))), "table": table}
+        return {"element": {"t": "vp", "d": "V", "pool": pool, "inp": entered}, "parent": draw(st.sampled_from(["IS_REQUIRED", "IS_OPTIONAL"])), **rounds}
+
+    @st.composite
     def build(draw):
+        if draw(st.sampled_from(range(4))) == 0:
+            return draw(build_long_lived())
         table, table_asts = draw(vtree.package_table())
         qualifiers = draw(st.lists(st.sampled_from(vtree.QUALIFIERS), min_size=1, max_size=5, unique=True))
         pool = [{"q": q, "expr": draw(vtree.node_expression(table_asts))} for q in qualifiers]
@@ -148,6 +218,9 @@ def strategy(tier):  # pylint:disable=unused-argument
 
 
 def sample(case):
+    if "first" in case:
+        return {"pool": [(e["q"], e["expr"]["first"]["s"]) for e in case["element"]["pool"]], "entered": case["element"]["inp"],
+                "packages_first": case["first"]["table"], "packages_second": case["second"]["table"]}  # fmt: skip
     return {"pool": [(e["q"], e["expr"]["s"]) for e in case["element"]["pool"]], "entered": case["element"]["inp"],
             "parent": case["parent"], "rc": case["cer"]["rc"]}  # fmt: skip
 
@@ -155,7 +228,7 @@ def sample(case):
 STAGES = [
     Stage(name="pools", kind="hyp", check=check, classify=classify, strategy=strategy,
           budget={"quick": 200, "thorough": 3000},
-          floors={"proper-subset-offered": 0.15, "nothing-offered": 0.02, "input=offered": 0.15,
-                  "input=in-pool-not-offered": 0.08, "input=foreign": 0.08},
+          floors={"proper-subset-offered": 0.1, "nothing-offered": 0.015, "input=offered": 0.1,
+                  "input=in-pool-not-offered": 0.05, "input=foreign": 0.05, "offer-changes-between-validations": 0.03},
           sample=sample),
 ]  # fmt: skip
